@@ -25,7 +25,7 @@ import cursor
 from tbf import walk, kids, strip, AnalysisBroken
 
 LEVEL = "other"
-TECHNIQUE = "control-skeleton agreement of sibling walks + partition / sort-before-search / routing rules over the clang AST (libTooling)"
+TECHNIQUE = "control-skeleton agreement of sibling walks + partition / sort-before-search (truth tables) / routing rules over the clang AST; executor submission summaries (C03.a) and level intervals (C12.3) re-exported"
 
 CORE_EXECUTORS = ["TbfAlgorithm", "TbfAlgorithmTsm", "TbfOpenmpAlgorithm", "TbfOpenmpAlgorithmTsm"]
 SINGLE_TREE = {"core": ["TbfAlgorithm", "TbfOpenmpAlgorithm"], "specx": ["TbfSmSpecxAlgorithm"], "starpu": ["TbfSmStarpuAlgorithm"]}
